@@ -566,6 +566,27 @@ def r3(run):
     for c in mr.calls():
         if c.bb in mr.live_blocks() and c.fn.startswith("std::collections::hash::map::HashMap::<K, V, S, A>::") and c.fn.split("::")[-1] in ("get", "contains_key"):
             server_params |= set(q.const_strs(c.arg(1)))
+    # a hand-written lookup helper (`query_param(query, "follow")`, `context_from_query(query)` -> `query_param(query, "context")`):
+    # the key literals it is called with are the keys the server reads
+    def keyish(sv):
+        return bool(sv) and len(sv) <= 24 and not sv.startswith("/") and " " not in sv and sv.replace("-", "").replace("_", "").isalnum()
+    seen_fns, todo = set(), [(mr, 0)]
+    while todo:
+        fb, depth = todo.pop()
+        for c in fb.calls():
+            if c.bb not in fb.live_blocks():
+                continue
+            if c.fn.startswith("std::collections::hash::map::HashMap::<K, V, S, A>::") and c.fn.split("::")[-1] in ("get", "contains_key") and fb is not mr:
+                server_params |= {k for k in q.const_strs(c.arg(1)) if keyish(k)}
+            if c.local and c.fn.startswith("xs::api::") and not c.fn.startswith(("xs::api::response_", "xs::api::handle")):
+                for a in c.arg_exprs():
+                    x = strip(a)
+                    if x[0] == "const" and "str" in x[1] and keyish(x[1]["str"]):
+                        server_params.add(x[1]["str"])
+                cb = facts.body(c.fn)
+                if cb is not None and c.fn not in seen_fns and depth < 2:
+                    seen_fns.add(c.fn)
+                    todo.append((cb, depth + 1))
     if q.live_calls(mr, "xs::store::ttl::TTL::from_query"):
         server_params.add("ttl")
     server_paths = set()
